@@ -1,3 +1,3 @@
-CONSTANT Want = {"C32_Exclusive", "C32_NoUseAfterUnregister", "C32_NoPanic", "C32_CallsReturn", "C32_EchoIffConfirmation"}
+CONSTANT Want = {"C32_Exclusive", "C32_NoUseAfterUnregister", "C32_NoPanic", "C32_NoConcurrentInvocation", "C32_UnregisterWaitsForInFlight", "C32_UnregisteredNeverInvoked", "C32_CallsReturn", "C32_EchoIffConfirmation"}
 SPECIFICATION TSpec
 CHECK_DEADLOCK FALSE
